@@ -49,7 +49,10 @@ NearPairs(V) ==
     IN UNION {ForRoot(q) : q \in Roots(V)}
 
 BroadKinds == {"wrongtype", "range", "absent", "nullval", "misspell", "dropcomp", "nullcomp"}
-Alphabet(V) == LET all == SetToSeq({c \in Full(V) : \/ c.kind \in BroadKinds
+\* a single mutation that is itself a known finding of C17 (answlog.filter left out: the grpc guns' registered default differs
+\* from the documented one) is decided by the single-mutation cases and not paired
+KnownSingle(c) == c.kind \in {"absent", "nullval"} /\ Len(c.p) >= 2 /\ SubSeq(c.p, Len(c.p) - 1, Len(c.p)) = <<"answlog", "filter">>
+Alphabet(V) == LET all == SetToSeq({c \in Full(V) \ {k \in Full(V) : KnownSingle(k)} : \/ c.kind \in BroadKinds
                                                      \/ PairableUnknown(c)
                                                      \/ (c.kind = "ph" /\ c.src = "env")})
                IN {all[i] : i \in {j \in 1..Len(all) : j % Stride = 0}}
